@@ -103,6 +103,9 @@ def main() -> None:
             if '_error' in r:
                 meta['caught_by_error'] = r['_error']
             (d / 'meta.json').write_text(json.dumps(meta, indent=1))
+            if meta.get('now_twin'):
+                print(d.name, meta['property'], 'behaviour-preserving since', meta['now_twin'], '- fired:', meta['caught_by'] or 'nothing (as it must)')
+                continue
             print(d.name, meta['property'], 'caught by', meta['caught_by'] or 'NOTHING', r.get('_analysis_errors', ''))
 
 
